@@ -5,6 +5,8 @@
 TIER=${1:-quick}
 cd /verif
 OUT=out/selftest.txt; mkdir -p out; : > $OUT
+# the evidence files are rewritten by every run: keep the ones of the unchanged tree
+rm -rf out/evidence_keep; cp -r evidence out/evidence_keep
 for d in seeded/*/; do
   id=$(basename $d)
   prop=$(python3 -c "import json;print(json.load(open('$d/meta.json'))['breaks_property'])")
@@ -16,4 +18,5 @@ for d in seeded/*/; do
   if [ $rc -eq 1 ]; then v=CAUGHT; else v=MISSED; fi
   echo "$id $prop exit=$rc $v violations=$nviol (deductive=$ded) undecided=$nund" | tee -a $OUT
 done
+rm -rf evidence; mv out/evidence_keep evidence
 (cd /repo && git status --short | grep -v '^??')
